@@ -76,6 +76,9 @@ func matchCallee(name, pattern string) bool {
 	if name == pattern {
 		return true
 	}
+	if strings.HasPrefix(name, "closure:") {
+		return false
+	}
 	return strings.HasSuffix(name, "."+pattern) || strings.HasSuffix(name, ":"+pattern)
 }
 
@@ -330,6 +333,33 @@ func (e *Enc) doCallInner(ci ssa.CallInstruction, c *ssa.CallCommon, args []Term
 	name := e.dynName(c.Value)
 	if e.fc != nil {
 		for _, d := range e.fc.DynCalls {
+			if d.Name == name && strings.HasPrefix(d.Spec, "method ") {
+				// the callee is a bound method value: prove it, then use the method's own contract
+				target := strings.TrimSpace(strings.TrimPrefix(d.Spec, "method "))
+				mfn := e.prog.lookupFunc(target)
+				if mfn == nil {
+					return nil, fmt.Errorf("%s: dyncall %s: method %s not found", e.key, name, target)
+				}
+				mfc := e.prog.contractOf(mfn)
+				if mfc == nil || !d.HasArgs || len(d.Args) < 1 {
+					return nil, fmt.Errorf("%s: dyncall %s: method %s needs a contract and a receiver argument", e.key, name, target)
+				}
+				se := e.specEnv(e.entry, e.cur, nil)
+				var margs []Term
+				for _, ax := range d.Args {
+					v, err := se.eval(ax)
+					if err != nil {
+						return nil, fmt.Errorf("%s: dyncall %s argument: %v", e.key, name, err)
+					}
+					margs = append(margs, v.t)
+				}
+				e.sc.DeclareFun("fn_code", []string{SInt}, SInt)
+				e.sc.DeclareFun("fn_fv0_Int", []string{SInt}, SInt)
+				bound := e.prog.fnTermByName(mfn.String() + "$bound")
+				e.oblige("PROTO.bound", "", nil, And(Eq(App(SInt, "fn_code", fv), bound), Eq(App(SInt, "fn_fv0_Int", fv), margs[0])),
+					"the called function value is the bound method "+target+" of the stated receiver", ci.Pos())
+				return e.applyContract(ci, mfc, mfn, shortFuncName(mfn), margs, nil, sig, e.deferExtra)
+			}
 			if d.Name == name {
 				spec, ok := e.prog.cs.FnSpecs[d.Spec]
 				if !ok {
@@ -533,7 +563,19 @@ func (e *Enc) applyContract(ci ssa.CallInstruction, fc *FuncContract, fn *ssa.Fu
 			}
 			e.sc.AssertNamed(Implies(g, t), "onpanic of "+name+": "+cl.Text)
 		}
+		e.cur = e.copyState(post)
+		if ci != nil {
+			// ghost updates on the exceptional edge of this call
+			savedG, savedB, savedX := e.curGuard, e.blockGuard, e.extra
+			e.curGuard = g
+			if err := e.runHooks("onpanic", ci, args, nil); err != nil {
+				return nil, err
+			}
+			e.curGuard, e.blockGuard, e.extra = savedG, savedB, savedX
+		}
 		e.raise(g, pv)
+		// ghost updates made for the exceptional edge must not leak into the normal continuation
+		e.cur = e.copyState(post)
 		e.pushExtra(Not(exc))
 	}
 	// 5. postconditions
